@@ -1,5 +1,5 @@
 (* C19 — property theorems only.  Statements are full; proofs are [exact lemma]. *)
-From Coq Require Import List NArith Bool Permutation.
+From Coq Require Import List NArith ZArith Bool Permutation.
 From LE Require Import Sync.PeerSelect Sync.PeerSelectProofs Sync.Handlers Sync.HandlersProofs Sync.Converge Sync.ConvergeProofs Sync.Download.
 Import ListNotations.
 Local Open Scope N_scope.
@@ -154,6 +154,22 @@ Theorem C19_sync_never_deletes_finalized : forall valid rs cs n common blocks e 
   (finalized n < length (chain n))%nat ->
   keeps n (fst (fast_sync valid rs cs n common blocks e th r2)) /\ keeps n (fst (block_sync valid n common blocks e)).
 Proof. intros. split; [apply fast_sync_keeps_finalized; assumption|apply block_sync_keeps_finalized; assumption]. Qed.
+
+(* ---------------------------------------------------------------- which mechanism (Syncer.Sync) *)
+(* a block from a current validator within two rounds of the own tip is handled by fast sync whether the offered chain
+   is longer or SHORTER than ours; the choice is symmetric in the two heights *)
+Theorem C19_close_block_uses_fast_sync : forall own_h block_h n g,
+  own_h <= block_h + 2 * n -> block_h <= own_h + 2 * n -> choose_sync own_h block_h n true g = MFast.
+Proof. exact close_block_uses_fast_sync. Qed.
+
+Theorem C19_choose_sync_symmetric : forall a b n v g, choose_sync a b n v g = choose_sync b a n v g.
+Proof. exact choose_sync_symmetric. Qed.
+
+(* with the wrapping uint32 difference block - own a shorter better chain is not synced at all *)
+Theorem C19_choose_sync_wrap_refuted :
+  exists own_h block_h n g, block_h < own_h /\ own_h <= block_h + 2 * n /\
+    choose_sync own_h block_h n true g = MFast /\ choose_sync_wrap own_h block_h n true g = MNone.
+Proof. exact choose_sync_wrap_refuted. Qed.
 
 (* ---------------------------------------------------------------- downloader (download.go, repaired) *)
 (* for EVERY sequence of peer answers (empty lists, repeated or foreign segments, errors) the download loop ends within
